@@ -164,9 +164,11 @@ func lift(fn *Function) bool {
 	// instructions and ssa:deferstack() in functions that contain no
 	// 'defer' instructions. Eliminate ssa:deferstack() if it does not
 	// escape.
-	usesDefer := false
 	deferstackAlloc, deferstackCall := deferstackPreamble(fn)
 	eliminateDeferStack := deferstackAlloc != nil && !deferstackAlloc.Heap
+	// A defer stack that escapes is captured by a range-over-func yield function, whose Defer
+	// instructions push onto this function's stack: the rundefers must stay.
+	usesDefer := deferstackAlloc != nil && deferstackAlloc.Heap
 
 	// Determine which allocs we can lift and number them densely.
 	// The renaming phase uses this numbering for compact maps.
